@@ -368,9 +368,22 @@ pub fn check_proxy(run: &mut Run) {
                         viol.push(("C03".into(), "non-elevated request to root-only endpoint relayed".into(), format!("tok={} dst={} {}", rq.tok, cp.dst_name, rq.target)));
                     } else if attributed && !traversal && !too_large {
                         if let Some(st) = status {
-                            if st != 403 && !(faults_flowing && st >= 500) {
+                            // (right after start the redirector has filled the kernel's policy map but not yet published its
+                            // map object inside the agent: the connection is diverted, the proxy cannot look its record up,
+                            // treats it as unattributed and answers 421 - also a refusal)
+                            let before_redirector = st == 421 && plan["variant"] == "unsettled" && cr.t_connect_ns < 5_000_000_000;
+                            if st != 403 && !(faults_flowing && st >= 500) && !before_redirector {
                                 viol.push(("C03".into(), "non-elevated request to root-only endpoint not answered 403".into(), format!("tok={} status={}", rq.tok, st)));
                             }
+                        }
+                    }
+                }
+                // whatever the proxy believed about the connection: a request of a non-elevated process never arrives at a
+                // root-only endpoint
+                if !caller.elevated {
+                    for rv in recvs.iter() {
+                        if (rv.host == hosts::WIRE || rv.host == hosts::GA) && !(recorded_dst == hosts::WIRE || recorded_dst == hosts::GA) {
+                            viol.push(("C03".into(), format!("non-elevated caller's request reached a root-only endpoint{}", race_tag), format!("tok={} dst={} reached {} {}", rq.tok, cp.dst_name, rv.host, rq.target)));
                         }
                     }
                 }
@@ -428,6 +441,10 @@ pub fn check_proxy(run: &mut Run) {
                                 }
                             } else if on("C04") || on("C10") {
                                 viol.push(("C04".into(), "authorization header does not verify".into(), format!("tok={} guid={} {}: {} {}", rq.tok, guid, why, m.method(), m.target())));
+                                if on("C10") && !why.starts_with("unknown key id") {
+                                    // the header names a key the host issued, and the MAC was not produced by that key
+                                    viol.push(("C10".into(), "the MAC was not produced by the key the header names".into(), format!("tok={} guid={} {}: {} {}", rq.tok, guid, why, m.method(), m.target())));
+                                }
                             }
                         }
                         SigCheck::Malformed(w) => {
@@ -524,9 +541,12 @@ pub fn check_proxy(run: &mut Run) {
                     }
                     bump!("c14.host_checked");
                 }
-                // C15: nothing above the limit may arrive
+                // C15: nothing above the limit may arrive; a body within the limit arrives intact
                 if on("C15") && too_large {
                     viol.push(("C15".into(), "body above the limit relayed".into(), format!("tok={} len={} limit={}", rq.tok, body_len, limit)));
+                }
+                if on("C15") && !too_large && !rq.declared_only && m.body != rq.body {
+                    viol.push(("C15".into(), "body within the limit not relayed intact".into(), format!("tok={} len {} -> {} (limit {})", rq.tok, rq.body.len(), m.body.len(), limit)));
                 }
             }
 
@@ -712,6 +732,9 @@ pub fn check_proxy(run: &mut Run) {
                         viol.push(("C10".into(), "agent's own call pairs the id of one key with a MAC computed under another".into(), format!("{} {} header names {}; {}", r.kind, r.msg.target(), guid, why)));
                     } else {
                         viol.push(("C04".into(), "agent's own call carries an authorization header that does not verify".into(), format!("{} {} guid={} {}", r.kind, r.msg.target(), guid, why)));
+                        if on("C10") && !why.starts_with("unknown key id") {
+                            viol.push(("C10".into(), "agent's own call: the MAC was not produced by the key the header names".into(), format!("{} {} guid={} {}", r.kind, r.msg.target(), guid, why)));
+                        }
                     }
                 }
                 SigCheck::Malformed(w) => viol.push(("C04".into(), "agent's own call: malformed authorization".into(), format!("{} {}", r.kind, w))),
@@ -868,9 +891,13 @@ pub fn rbac_direct(run: &mut Run, step: &Value) {
                     rbac::Decision::Either => false,
                 };
                 if bad {
-                    let explained = dup && rbac::has_duplicate_names(item_json) && {
+                    // (duplicate names also arise without the generator asking for them, e.g. two identities drawn with the
+                    // same name: what matters is whether "only the last entry of a name is kept" reproduces the decision)
+                    let _ = dup;
+                    let explained = rbac::has_duplicate_names(item_json) && {
                         let w2 = rbac::is_allowed(&rbac::collapse_last(item_json), &caller, us);
-                        (w2 == rbac::Decision::Allow && got) || (w2 == rbac::Decision::Deny && !got)
+                        // (Either: the reference leaves the collapsed document undecided - it does not contradict the agent)
+                        (w2 == rbac::Decision::Allow && got) || (w2 == rbac::Decision::Deny && !got) || w2 == rbac::Decision::Either
                     };
                     let class = format!("decision function {} although the declared semantics {}{}", if got { "allows" } else { "denies" }, if got { "deny" } else { "allow" }, if explained { " [explained by: of entries sharing a name only the last is kept]" } else { "" });
                     run.violate("C02", &class, format!("url={} caller={:?} item={}", us, caller, item_json));
